@@ -254,6 +254,8 @@ func runAPI(op string, args []string) string {
 				return fmtErr(err, q)
 			}
 			return fmt.Sprintf("ok %d", q)
+		case "countWhitespace":
+			return strconv.Itoa(rjson.VerifCountWhitespace(data))
 		case "fpReadFloat":
 			m, e, neg, tr, p, ok := rjson.VerifFPReadFloat(data)
 			return fmt.Sprintf("%d %d %v %v %d %v", m, e, neg, tr, p, ok)
